@@ -21,12 +21,14 @@ DefaultHrp == StrToCodes("bcrt")
 Two256 == Zeros(32) \o <<1>>
 Pad32(n) == ToLE(n, 32)
 U256(b) == FromLE(FirstN(b, 32))                    \* at most the first 32 bytes, little-endian
-AddMod(a, b, g) == \* a, b, g as naturals; g = <<>> means modulo 2^256
-    LET c == DivMod(Add(a, b), Two256)[2]
-    IN IF g = <<>> THEN c ELSE DivMod(Add(a, b), g)[2]
+\* a, b, g as naturals; g = <<>> means modulo 2^256.  With a modulus the operands are group elements (a, b < g: InGroup), so one
+\* conditional subtraction / addition of g is the reduction
+AddMod(a, b, g) ==
+    LET c == Add(a, b)
+    IN IF g = <<>> THEN (IF Le(Two256, c) THEN Sub(c, Two256) ELSE c) ELSE (IF Le(g, c) THEN Sub(c, g) ELSE c)
 SubMod(a, b, g) ==
     IF g = <<>> THEN (IF Le(b, a) THEN Sub(a, b) ELSE Sub(Add(a, Two256), b))
-    ELSE (IF Le(b, a) THEN DivMod(Sub(a, b), g)[2] ELSE DivMod(Sub(Add(a, g), b), g)[2])
+    ELSE (IF Le(b, a) THEN Sub(a, b) ELSE Sub(Add(a, g), b))
 
 InGroup(args, nb) == nb < 3 \/ U256(args[3][2]) = <<>> \/ (Lt(U256(args[1][2]), U256(args[3][2])) /\ Lt(U256(args[2][2]), U256(args[3][2])))
 
@@ -74,7 +76,8 @@ Transform(name, args) ==
       [] name = "spk_to_addr" -> IF Len(b1) # 25 \/ FirstN(b1, 3) # <<OP_DUP, OP_HASH160, 20>> \/ LastN(b1, 2) # <<OP_EQUALVERIFY, OP_CHECKSIG>> THEN TfFail
                                  ELSE Str(Encode58Check(<<0>> \o Take(b1, 3, 20)))
       [] name = "jacobi" -> IF Len(b1) # 32 \/ (nb = 2 /\ Len(args[2][2]) # 32) \/ nb > 2 THEN TfFail
-                            ELSE IntV(IntFromSmall(Jacobi(FromLE(b1), IF nb = 2 THEN FromLE(args[2][2]) ELSE FieldP)))
+                            \* = Jacobi(FromLE(b1), k): evaluated by the primitive that MC_Jacobi shows equal to that definition
+                            ELSE IntV(IntFromSmall(JacobiLE(b1, IF nb = 2 THEN args[2][2] ELSE ToLE(FieldP, 32))))
       [] name = "taproot_tweak_pubkey" ->
             IF nb # 2 \/ Len(b1) # 32 \/ Len(args[2][2]) # 32 THEN TfFail
             ELSE LET r == XOnlyTweakAdd(b1, args[2][2]) IN IF ~r[1] THEN TfFail ELSE Data(<<2 + r[2]>> \o r[3])
